@@ -219,7 +219,7 @@ def do_check(prop, tier, seed, args):
         "faults_planned": stats.get("faults_planned", {}),
         "probes": stats.get("probes", {}),
         "compared_by_op": stats.get("compared_by_op", {}),
-        "relaxation_counters": {k: stats.get(k, 0) for k in ("skipped_unspecified", "tolerant_pass", "twin_nofit", "twin_nobuild", "unspec_client_steps", "recoveries_compared") if k in stats},
+        "relaxation_counters": {k: stats.get(k, 0) for k in ("skipped_unspecified", "tolerant_pass", "twin_nofit", "twin_nobuild", "unspec_client_steps", "recoveries_compared", "hangs", "illconditioned_skip", "rows_judged", "rows_either", "rows_unjudged", "batches", "batches_raised", "independence_checks", "isolation_checks", "shadow_comparisons", "anomalies_reported", "adjacent_flagged_pairs", "boundary_ties") if k in stats},
         "simulated_time": {
             "note": "the system has no clock; the honest measure is logical steps and samples streamed through update",
             "logical_steps": int(stats.get("steps", total_steps)),
@@ -292,4 +292,35 @@ def selftest_determinism(args, seed):
                 print(f"{prop}: NONDETERMINISM hashseed={hs} workers={workers}: {len(diff)} of {len(ref)} runs differ, e.g. run {diff[:5]}")
         print(f"{prop}: {len(ref)} runs x {len(outs)} configurations compared")
     print("determinism self-test:", "FAILED" if bad else "ok")
+    return 2 if bad else 0
+
+
+REQUIRED = {
+    "C10": {
+        "probes": ["compared_after_sharer_refit", "twin_dataset_switch_compared", "compared_after_interrupted_output", "compared_on_update_lineage", "compared_after_recovery", "set_params_on_shared_object", "nested_set_params", "route_clone_compared", "route_setp_compared", "pristine_compared", "evaluate_compared", "sharer_ran_on_same_data", "fitted_params_compared", "update_ok", "sweep_points", "config_pairs", "dataset_mutated_in_place", "compared_exception_outcome", "set_params_rejected", "torn_fit_observed"],
+        "faults": ["bad_data", "singular", "interrupt", "flaky", "bad_cuts"],
+    },
+    "C01": {"probes": ["prange_permuted", "refit_on_other_data", "sharing_detector_ran", "param_changed", "data_mutated_in_place"], "faults": ["singular", "interrupt", "bad_cuts", "bad_param"]},
+    "C17": {"probes": ["U_set_params", "U_fit_after_A_fit", "A_update_ok", "A_recovered_by_fit", "compared_after_failed_predict", "compared_after_recovery", "compared_on_update_lineage", "nonempty_expected", "exhaustive_script_cases"], "faults": ["bad_data", "interrupt", "flaky"]},
+}
+
+
+def selftest_probes(args, seed):
+    """Reach self-test: after a quick run every rare-condition probe and every fault kind
+    must have fired at least once (a probe stuck at zero means the workload or fault mix
+    must change)."""
+    bad = 0
+    for prop in args.props.split(","):
+        env = dict(os.environ)
+        env.pop("VERIF_BOOTED", None)
+        p = subprocess.run([sys.executable, os.path.join(VERIF, "check.py"), prop, "--tier", "quick"], capture_output=True, text=True, env=env, timeout=3600)
+        if p.returncode != 0:
+            print(f"{prop}: quick check exit {p.returncode}\n{p.stdout[-800:]}{p.stderr[-800:]}")
+            bad += 1
+            continue
+        ev = json.load(open(os.path.join(VERIF, "evidence", f"{prop}.json")))["coverage"]
+        zero = [k for k in REQUIRED[prop]["probes"] if not ev["probes"].get(k)] + ["fault:" + k for k in REQUIRED[prop]["faults"] if not ev["faults_fired"].get(k)]
+        print(f"{prop}: {len(REQUIRED[prop]['probes'])} probes, {len(REQUIRED[prop]['faults'])} fault kinds; stuck at zero: {zero or 'none'}")
+        bad += len(zero)
+    print("probe self-test:", "FAILED" if bad else "ok")
     return 2 if bad else 0
